@@ -7,7 +7,7 @@
    outside (lists that are not 188 long, non-byte elements, states outside 0..2) are listed in notes/model-duplicates.md.
    Statements only; proofs in Proofs/ModelTie.v. *)
 From Gots Require Import Base.Prelude Model.Pts Model.Packet Model.AF Model.AFfn Model.Psi Model.Pat Model.Pmt Model.Pes
-  Model.Accumulator Model.Create Model.Scte Model.ScteEnc Proofs.ModelTie.
+  Model.Accumulator Model.Create Model.Scte Model.ScteEnc Model.IO Proofs.ModelTie.
 Local Open Scope N_scope.
 
 (* ================================================================== packet/packet.go
@@ -82,6 +82,15 @@ Theorem ModelTie_packet_methods : forall p,
 Proof. exact (fun p => conj (pid_method p) (conj (pusi_method p) (conj (has_payload_method p)
                       (conj (has_af_method p) (conj (cc_method p) (payload_start_method p)))))). Qed.
 Print Assumptions ModelTie_packet_methods.
+
+(* packet/io.go IsSynced masks the big-endian header word instead of calling the accessors (Model/IO.v, C16): the PID
+   and the adaptation_field_control bits it tests are those of packet.Pid / AdaptationFieldControl on the same packet *)
+Theorem ModelTie_issynced_fields : forall b0 b1 b2 b3 rest, b0 < 256 -> b1 < 256 -> b2 < 256 -> b3 < 256 ->
+  let p := b0 :: b1 :: b2 :: b3 :: rest in
+  N.shiftr (N.land (be32 b0 b1 b2 b3) SyncIO.pidMask) 8 = Packet.Pid_fn p /\
+  N.land (be32 b0 b1 b2 b3) SyncIO.afcMask = N.land (Packet.get p 3) 48.
+Proof. exact issynced_fields. Qed.
+Print Assumptions ModelTie_issynced_fields.
 
 (* ================================================================== packet/create.go
    reference: Model/Create.v (C02); copies: Pes.pkt_set_payload, Pes.with_pes (C11) *)
